@@ -50,6 +50,9 @@ func ctxOf(wrapper, atom string) string {
 	if atom == "c0" {
 		return "" // the empty context (signing side only)
 	}
+	if atom == "c1s" {
+		return ctxOf(wrapper, "c1") + " " // differs from c1 by trailing whitespace only (signing side only)
+	}
 	switch wrapper {
 	case "session":
 		if atom == "c1" {
